@@ -821,6 +821,11 @@ def regression_cases(mode):
     out.append({"mode": mode, "kind": "box", "recipe": fr, "sizes": [[8, 3]], "ops": [["render", 0, 0], ["mut", 1, ["contents_append", 31]], ["render", 0, 0]]})
     fr2 = {"t": "Frame", "body": {"t": "SolidFill", "ch": "."}, "header": T_("head"), "footer": {"t": "Pile", "items": [], "focus": 0}, "focus": "body"}
     out.append({"mode": mode, "kind": "box", "recipe": fr2, "sizes": [[8, 4]], "ops": [["render", 0, 1], ["mut", 3, ["contents_append", 32]], ["render", 0, 1]]})
+    # an Overlay whose top widget renders nothing shows bottom_w alone, and must still notice top_w gaining rows
+    for ovh, ovw in (("pack", ["relative", 60]), ("pack", "pack"), (["relative", 50], ["relative", 60])):
+        ov = {"t": "Overlay", "top": {"t": "Pile", "items": [], "focus": 0}, "bottom": {"t": "SolidFill", "ch": "."}, "align": "right", "width": ovw, "valign": "top", "height": ovh}
+        for f in (1, 0):
+            out.append({"mode": mode, "kind": "box", "recipe": ov, "sizes": [[17, 12]], "ops": [["render", 0, f], ["mut", 1, ["contents_append", 34]], ["render", 0, f], ["mut", 1, ["contents_clear"]], ["render", 0, f], ["mut", 1, ["contents_insert", 0, 35]], ["render", 0, f]]})
     fx = {"t": "Pile", "items": [["pack", None, T_("hello")], ["weight", 1, {"t": "Pile", "items": [], "focus": 0}]], "focus": 0}
     out.append({"mode": mode, "kind": "fixed", "recipe": fx, "sizes": [[]], "ops": [["render", 0, 0], ["mut", 2, ["contents_append", 33]], ["render", 0, 0]]})
     sc2 = {"t": "Scrollable", "w": T_("\n".join(f"row {i}" for i in range(10))), "pos": 7}
